@@ -160,7 +160,7 @@ def r1(ctx):
                             if not LN.compatible(cs, ce) or not _self_consistent(cs + ce):
                                 continue
                             n += 1
-                            ctx.check(ls == le, R, f"{lab}:size==len(encode)[{' & '.join(sorted(set(cs + ce))) or 'always'}]", m, ci.methods["size"], f"size() = {LN.l_fmt(le)} (what encode() produces)", f"size() = {LN.l_fmt(ls)}")
+                            ctx.check(LN.l_norm(ls) == LN.l_norm(le), R, f"{lab}:size==len(encode)[{' & '.join(sorted(set(cs + ce))) or 'always'}]", m, ci.methods["size"], f"size() = {LN.l_fmt(le)} (what encode() produces)", f"size() = {LN.l_fmt(ls)}")
                     ctx.require(n > 0, f"{m.relpath}: {cname}: no comparable size/encode paths")
                     # every way encode() can produce bytes must have been compared with a size() result
                     for ce, le, _ in enc:
@@ -179,7 +179,7 @@ def r1(ctx):
                                         continue
                                     n += 1
                                     want = LN.l_add(nr, LN.l_mul(rc, rs))
-                                    ctx.check(want == le, R, f"{lab}:non_repeat+count*size==len(encode)[{' & '.join(sorted(set(allc))) or 'always'}]", m, ci.methods["encode"], f"len(encode) = {LN.l_fmt(le)}", f"non_repeat_size + repeat_count*repeat_size = {LN.l_fmt(want)}")
+                                    ctx.check(LN.l_norm(want) == LN.l_norm(le), R, f"{lab}:non_repeat+count*size==len(encode)[{' & '.join(sorted(set(allc))) or 'always'}]", m, ci.methods["encode"], f"len(encode) = {LN.l_fmt(le)}", f"non_repeat_size + repeat_count*repeat_size = {LN.l_fmt(want)}")
                     ctx.require(n > 0, f"{m.relpath}: {cname}: no comparable paths")
     # encode_c_string really yields `length` bytes
     em = ctx.repo.module("pyairtouch.comms.encoding")
@@ -388,9 +388,12 @@ def r2(ctx):
     ctx.fn(h4, "HeaderDecoder.decode")
     ok = False
     for t in d4.tests(lambda e: isinstance(e, ast.Compare)):
-        if same_relation(ctx.repo, h4, _Slots().visit(d4.expand(t.ast, t)), ast.parse("U0 != _PREFIX", mode="eval").body):
-            reach = d4.cfg.reachable(d4.branch(t, "true").id, labels=NONEXC)
-            ok = d4.cfg.exit.id not in reach
+        te = _Slots().visit(d4.expand(t.ast, t))
+        # `if prefix != P: raise` or `if prefix == P: return ...` followed by the raise: the mismatch branch never returns normally
+        for want, label in (("U0 != _PREFIX", "true"), ("U0 == _PREFIX", "false")):
+            if same_relation(ctx.repo, h4, te, ast.parse(want, mode="eval").body):
+                reach = d4.cfg.reachable(d4.branch(t, label).id, labels=NONEXC)
+                ok = ok or d4.cfg.exit.id not in reach
     ctx.check(ok, R, "at4:HeaderDecoder:rejects[prefix != _PREFIX]", h4, d4.node, "a wrong prefix raises DecodeError", "prefix not checked")
     for gen, name, want in (("at4", "_PREFIX", b"\x55\x55"), ("at5", "_OUTER_HEADER_PREFIX", b"\x55\x55\x55\xab"), ("at5", "_INNER_HEADER_PREFIX", b"\x55\x55\x55\xaa")):
         mm = ctx.repo.module(f"pyairtouch.{gen}.comms.hdr")
@@ -551,12 +554,21 @@ def r3(ctx):
         except (B.Unsupported, StopIteration) as ex:
             raise AnalysisError(f"{m.relpath}: {helper} left the bit domain: {ex}")
         lay = layout(packed, None, strict=False)
-        dfn = m.get_class("AcTimerStatusDecoder").methods["_decode_timer_state"]
-        dev = B.Ev(ctx.repo, m, m.get_class("AcTimerStatusDecoder"))
-        args = [B.Sym("buffer"), B.Sym("offset")] if gen == "at4" else [B.Sym("buffer")]
-        obj = dev.invoke(dfn, m, args, {}, skip_self=True)
-        smap = c05.slot_map(dev.notes)
-        ctx.require(isinstance(obj, B.Obj), f"{m.relpath}: _decode_timer_state does not build an AcTimerState")
+        # decoder side: the on_timer object of a decoded record (wherever the two bytes are unpacked - in decode() itself, in a
+        # method or in a module function); its unpack is taken as offset 0 of the timer struct
+        dfn = m.get_class("AcTimerStatusDecoder").methods["decode"]
+        rci, dfields, dprob, dst, dnotes = codec.decoder_fields(ctx.repo, m, "AcTimerStatusDecoder")
+        obj = dfields.get("on_timer")
+        ctx.require(isinstance(obj, B.Obj), f"{m.relpath}: AcTimerStatusDecoder does not build an AcTimerState for on_timer ({dprob})")
+        tags = sorted({n for sub in obj.fields.values() for _, n, _ in (codec.describe(sub).bits or []) if isinstance(n, str)})
+        own = {t.split("@", 1)[1] if "@" in t else "" for t in tags}
+        ctx.require(len(own) == 1, f"{m.relpath}: on_timer is decoded from several unpack calls {sorted(own)}")
+        tag = ("@" + own.pop()) if tags and "@" in tags[0] else ""
+        smap = {}
+        for n_ in dnotes:
+            if n_[0] == "unpack" and n_[3] == tag:
+                for sl in n_[1].slots:
+                    smap[f"slot{sl.index}{tag}"] = (n_[1], sl, 0)
         for k, sub in obj.fields.items():
             compare_field(ctx, R, f"{gen}.{mod}:timer_state", k, codec.describe(sub), lay, smap, m, dfn, path="timer_state." if False else "")
 
